@@ -73,8 +73,8 @@ func init() {
 		run: runC04,
 	})
 	addWitness(witness{Prop: "C04", Name: "early-slot-release", File: "pkg/core/bundle_pack.go",
-		Old: "\tputRes, e := cafsArchive.Put(ctx, fileReader)\n\tif e != nil {",
-		New: "\tputRes, e := cafsArchive.Put(ctx, fileReader)\n\t<-chans.concurrencyControl\n\tif e != nil {",
+		Old:    "\tputRes, e := cafsArchive.Put(ctx, fileReader)\n\tif e != nil {",
+		New:    "\tputRes, e := cafsArchive.Put(ctx, fileReader)\n\t<-chans.concurrencyControl\n\tif e != nil {",
 		Expect: "fanout"})
 	addWitness(witness{Prop: "C04", Name: "regexp-loosened", File: "pkg/model/bundle.go",
 		Old: "^\\.datamon/.*|^/\\.datamon/.*|^/\\.datamon$|^\\.datamon$|", New: "^\\.datamon.*|^/\\.datamon/.*|^/\\.datamon$|",
@@ -83,12 +83,12 @@ func init() {
 		Old: "\t\tHash:         packedFile.hash,\n\t\tNameWithPath: packedFile.name,", New: "\t\tHash:         packedFile.name,\n\t\tNameWithPath: packedFile.hash,",
 		Expect: "plumbing"})
 	addWitness(witness{Prop: "C04", Name: "count-before-write", File: "pkg/core/bundle_pack.go",
-		Old: "\tif err != nil {\n\t\treturn err\n\t}\n\tbundle.BundleDescriptor.BundleEntriesFileCount++\n\treturn nil",
-		New: "\tbundle.BundleDescriptor.BundleEntriesFileCount++\n\tif err != nil {\n\t\treturn err\n\t}\n\treturn nil",
+		Old:    "\tif err != nil {\n\t\treturn err\n\t}\n\tbundle.BundleDescriptor.BundleEntriesFileCount++\n\treturn nil",
+		New:    "\tbundle.BundleDescriptor.BundleEntriesFileCount++\n\tif err != nil {\n\t\treturn err\n\t}\n\treturn nil",
 		Expect: "index-count"})
 	addWitness(witness{Prop: "C04", Name: "buffered-error-channel", File: "pkg/core/bundle_unpack.go",
-		Old: "\terrC := make(chan errorHit)\n\tdoneOkC := make(chan struct{})\n\tgo downloadBundleEntries(",
-		New: "\terrC := make(chan errorHit, 1)\n\tdoneOkC := make(chan struct{})\n\tgo downloadBundleEntries(",
+		Old:    "\terrC := make(chan errorHit)\n\tdoneOkC := make(chan struct{})\n\tgo downloadBundleEntries(",
+		New:    "\terrC := make(chan errorHit, 1)\n\tdoneOkC := make(chan struct{})\n\tgo downloadBundleEntries(",
 		Expect: "fanout"})
 	addWitness(witness{Prop: "C04", Name: "skip-check-dropped", File: "pkg/core/bundle_pack.go",
 		Old: "\treturn model.IsGeneratedFile(file) || (b.SkipOnError && !exist)", New: "\treturn b.SkipOnError && (model.IsGeneratedFile(file) || !exist)",
@@ -173,33 +173,7 @@ func runC04(c *Ctx) {
 				"uploadBundleFile can be started for a file that skipFile rejected or that was not filtered at all: generated paths are uploaded")
 		}
 	}
-	if pat, pos, ok := constRegexpAssigned(p, "pkg/model", "genFileRe"); !ok {
-		c.fail("generated-regexp", "pkg/model.genFileRe", "-", "the generated-path pattern is no longer a constant given to regexp.MustCompile: cannot be evaluated statically")
-	} else {
-		re, err := regexp.Compile(pat)
-		if err != nil {
-			c.fail("generated-regexp", "pkg/model.genFileRe", p.Pos(pos), "constant pattern does not compile: "+err.Error())
-		} else {
-			for _, s := range generatedYes {
-				c.check(re.MatchString(s), "generated-regexp.reserved", "genFileRe~"+s, p.Pos(pos), "reserved path matched", "reserved generated path "+s+" is not matched by the constant pattern: it would be uploaded with the bundle")
-			}
-			for _, s := range generatedNo {
-				c.check(!re.MatchString(s), "generated-regexp.decoy", "genFileRe!~"+s, p.Pos(pos), "ordinary path not matched", "ordinary user path "+s+" is matched by the generated-path pattern: the file is silently dropped from uploads")
-			}
-		}
-		// IsGeneratedFile must apply that pattern to its parameter and nothing else
-		f := p.Func("pkg/model.IsGeneratedFile")
-		okBody := false
-		ast.Inspect(f.Decl.Body, func(n ast.Node) bool {
-			if r, ok := n.(*ast.ReturnStmt); ok && len(r.Results) == 1 {
-				if describeExpr(f, r.Results[0], 0) == "global:genFileRe.MatchString(param#0)" {
-					okBody = true
-				}
-			}
-			return true
-		})
-		c.check(okBody, "generated-regexp.applied", f.ID, p.Pos(f.Decl.Pos()), "IsGeneratedFile returns genFileRe.MatchString(file)", "IsGeneratedFile no longer returns genFileRe.MatchString(file): the sampled pattern is not what decides")
-	}
+	checkGeneratedRegexp(c)
 
 	// --- (b) record plumbing -------------------------------------------------------------------------
 	{
@@ -388,42 +362,7 @@ func runC04(c *Ctx) {
 	}
 
 	// --- (d) fan-out protocol --------------------------------------------------------------------------
-	type inst struct{ coord, collector string; workers []string; done string; chans []string }
-	for _, in := range []inst{
-		{"pkg/core.uploadBundleFiles", "pkg/core.uploadBundle", []string{"pkg/core.uploadBundleFile"}, "doneOk", []string{"filePackedC", "errorC", "doneOkC"}},
-		{"pkg/core.downloadBundleFileList", "pkg/core.unpackBundleFileList", []string{"pkg/core.downloadBundleFileListFile"}, "doneOk", []string{"bundleEntriesC", "errorC", "doneOkC"}},
-		{"pkg/core.downloadBundleEntries", "pkg/core.unpackDataFiles", []string{"pkg/core.downloadBundleEntry", "pkg/core.downloadBundleEntryOverwrite", "pkg/core.deleteBundleEntry"}, "doneOk", []string{"errC", "doneOkC"}},
-	} {
-		checkFanoutCoordinator(c, "fanout", p.BodyOf(p.Func(in.coord)), semNamesCore, sendOn(in.done))
-		for _, w := range in.workers {
-			checkFanoutWorker(c, "fanout", p.BodyOf(p.Func(w)), semNamesCore)
-		}
-		cb := p.BodyOf(p.Func(in.collector))
-		for _, ch := range in.chans {
-			unb, pos, found := makeChanIsUnbuffered(cb, ch)
-			if !found {
-				c.fail("fanout.collector-channels-unbuffered", in.collector+":"+ch, p.Pos(cb.Block.Pos()), "channel "+ch+" is no longer created by make in the collector")
-				continue
-			}
-			c.check(unb, "fanout.collector-channels-unbuffered", in.collector+":"+ch, p.Pos(pos),
-				"channel is unbuffered: a worker's send completes only when the collector received it, i.e. before the worker's slot is released",
-				"channel "+ch+" is buffered: a worker can complete its send and release its slot before the collector received the value, the coordinator then signals done and the collector's select may take done first — the result or error is lost")
-		}
-		checkCollectorErrorWins(c, "fanout.error-beats-done", cb)
-		// every go target of the coordinator is a checked worker
-		cf := p.Func(in.coord)
-		known := map[string]bool{}
-		for _, w := range in.workers {
-			known[w] = true
-		}
-		ast.Inspect(cf.Decl.Body, func(n ast.Node) bool {
-			if g, ok := n.(*ast.GoStmt); ok {
-				id := calleeID(cf.Info(), g.Call)
-				c.check(known[id], "fanout.known-workers", callKey(cf, g.Call), p.Pos(g.Pos()), "goroutine target "+id+" is a checked worker", "coordinator starts an unchecked worker `"+id+"`")
-			}
-			return true
-		})
-	}
+	checkCoreFanouts(c)
 	c.requireInstances("fanout.release-deferred", 5)
 	c.requireInstances("fanout.slot-before-go", 3)
 
@@ -579,3 +518,83 @@ func usesRecvVar(info *types.Info, r *ast.ReturnStmt, cc *ast.CommClause) bool {
 }
 
 var _ = sort.Strings
+
+// checkCoreFanouts applies the E-FANOUT obligations to the three bounded fan-outs of bundle upload/download
+// (shared by C04, which needs that no result is lost, and C15, which needs the same protocol for every schedule).
+func checkCoreFanouts(c *Ctx) {
+	p := c.P
+	type inst struct {
+		coord, collector string
+		workers          []string
+		done             string
+		chans            []string
+	}
+	for _, in := range []inst{
+		{"pkg/core.uploadBundleFiles", "pkg/core.uploadBundle", []string{"pkg/core.uploadBundleFile"}, "doneOk", []string{"filePackedC", "errorC", "doneOkC"}},
+		{"pkg/core.downloadBundleFileList", "pkg/core.unpackBundleFileList", []string{"pkg/core.downloadBundleFileListFile"}, "doneOk", []string{"bundleEntriesC", "errorC", "doneOkC"}},
+		{"pkg/core.downloadBundleEntries", "pkg/core.unpackDataFiles", []string{"pkg/core.downloadBundleEntry", "pkg/core.downloadBundleEntryOverwrite", "pkg/core.deleteBundleEntry"}, "doneOk", []string{"errC", "doneOkC"}},
+	} {
+		checkFanoutCoordinator(c, "fanout", p.BodyOf(p.Func(in.coord)), semNamesCore, sendOn(in.done))
+		for _, w := range in.workers {
+			checkFanoutWorker(c, "fanout", p.BodyOf(p.Func(w)), semNamesCore)
+		}
+		cb := p.BodyOf(p.Func(in.collector))
+		for _, ch := range in.chans {
+			unb, pos, found := makeChanIsUnbuffered(cb, ch)
+			if !found {
+				c.fail("fanout.collector-channels-unbuffered", in.collector+":"+ch, p.Pos(cb.Block.Pos()), "channel "+ch+" is no longer created by make in the collector")
+				continue
+			}
+			c.check(unb, "fanout.collector-channels-unbuffered", in.collector+":"+ch, p.Pos(pos),
+				"channel is unbuffered: a worker's send completes only when the collector received it, i.e. before the worker's slot is released",
+				"channel "+ch+" is buffered: a worker can complete its send and release its slot before the collector received the value, the coordinator then signals done and the collector's select may take done first — the result or error is lost")
+		}
+		checkCollectorErrorWins(c, "fanout.error-beats-done", cb)
+		// every go target of the coordinator is a checked worker
+		cf := p.Func(in.coord)
+		known := map[string]bool{}
+		for _, w := range in.workers {
+			known[w] = true
+		}
+		ast.Inspect(cf.Decl.Body, func(n ast.Node) bool {
+			if g, ok := n.(*ast.GoStmt); ok {
+				id := calleeID(cf.Info(), g.Call)
+				c.check(known[id], "fanout.known-workers", callKey(cf, g.Call), p.Pos(g.Pos()), "goroutine target "+id+" is a checked worker", "coordinator starts an unchecked worker `"+id+"`")
+			}
+			return true
+		})
+	}
+}
+
+
+// checkGeneratedRegexp: the constant generated-path pattern, sampled against reserved paths and decoys (C04, C20).
+func checkGeneratedRegexp(c *Ctx) {
+	p := c.P
+	if pat, pos, ok := constRegexpAssigned(p, "pkg/model", "genFileRe"); !ok {
+		c.fail("generated-regexp", "pkg/model.genFileRe", "-", "the generated-path pattern is no longer a constant given to regexp.MustCompile: cannot be evaluated statically")
+	} else {
+		re, err := regexp.Compile(pat)
+		if err != nil {
+			c.fail("generated-regexp", "pkg/model.genFileRe", p.Pos(pos), "constant pattern does not compile: "+err.Error())
+		} else {
+			for _, s := range generatedYes {
+				c.check(re.MatchString(s), "generated-regexp.reserved", "genFileRe~"+s, p.Pos(pos), "reserved path matched", "reserved generated path "+s+" is not matched by the constant pattern: it would be uploaded with the bundle")
+			}
+			for _, s := range generatedNo {
+				c.check(!re.MatchString(s), "generated-regexp.decoy", "genFileRe!~"+s, p.Pos(pos), "ordinary path not matched", "ordinary user path "+s+" is matched by the generated-path pattern: the file is silently dropped from uploads")
+			}
+		}
+		// IsGeneratedFile must apply that pattern to its parameter and nothing else
+		f := p.Func("pkg/model.IsGeneratedFile")
+		okBody := false
+		ast.Inspect(f.Decl.Body, func(n ast.Node) bool {
+			if r, ok := n.(*ast.ReturnStmt); ok && len(r.Results) == 1 {
+				if describeExpr(f, r.Results[0], 0) == "global:genFileRe.MatchString(param#0)" {
+					okBody = true
+				}
+			}
+			return true
+		})
+		c.check(okBody, "generated-regexp.applied", f.ID, p.Pos(f.Decl.Pos()), "IsGeneratedFile returns genFileRe.MatchString(file)", "IsGeneratedFile no longer returns genFileRe.MatchString(file): the sampled pattern is not what decides")
+	}
+}
